@@ -44,7 +44,13 @@ func (c *Client) refreshLockablePatterns() {
 	c.lockablePatterns = make([]string, 0, len(paths))
 	for _, p := range paths {
 		if p.Lockable {
-			c.lockablePatterns = append(c.lockablePatterns, filepath.ToSlash(p.Path))
+			pattern := filepath.ToSlash(p.Path)
+			if i := strings.LastIndex(pattern, "/"); p.AnyDepth && i >= 0 {
+				// `*.dat` in sub/.gitattributes applies to
+				// sub/a.dat and to sub/deep/b.dat alike
+				pattern = pattern[:i+1] + "**/" + pattern[i+1:]
+			}
+			c.lockablePatterns = append(c.lockablePatterns, pattern)
 		}
 	}
 	c.lockableFilter = filepathfilter.New(c.lockablePatterns, nil, filepathfilter.GitAttributes, filepathfilter.DefaultValue(false))
